@@ -31,6 +31,14 @@ func randomTreeCases(c *engine.Ctx, stream string, n int, o sgen.Opts, build fun
 		g := sgen.New(c.R, o)
 		root := g.Root("")
 		base := g.FullSample(root, 0)
+		for tries := 0; containsNull(base) && tries < 20; tries++ {
+			// an unsatisfiable sub-schema leaves a hole; null at a non-nullable position is the `null` convention
+			root = g.Root("")
+			base = g.FullSample(root, 0)
+		}
+		if containsNull(base) {
+			continue
+		}
 		docs := append([]any{base}, build(g, root, base)...)
 		pc := baseCase(stream, root, docs)
 		for k, v := range g.Counts {
@@ -375,6 +383,26 @@ func init() {
 		breaks(c, res, nil, fails > 0)
 		knownProgramFindings(c)
 	})
+}
+
+func containsNull(v any) bool {
+	switch t := v.(type) {
+	case nil:
+		return true
+	case M:
+		for _, x := range t {
+			if containsNull(x) {
+				return true
+			}
+		}
+	case []any:
+		for _, x := range t {
+			if containsNull(x) {
+				return true
+			}
+		}
+	}
+	return false
 }
 
 func toAnyS(xs []string) []any {
